@@ -109,7 +109,7 @@ pub fn c05(ctx: &Ctx) -> Report {
         runs.push(SliceRun { slice: s, depth: ctx.tier.pick(7, 9) });
     }
     let req = ["timed out", "cancelled by cancel()", "completed after cancel_retransmissions()", "response delivered", "id re-sent after completion", "duplicate send refused", "response after timeout dropped", "two requests due at one poll, non-default order taken"];
-    run_slices(ctx, runs, &req, "all call histories up to the depth over {send (2 shapes, duplicate ids), send indication, poll at now/wake/wake+700ms x all map-iteration orders, responses (unsigned, SHA-1 under R1/R2) for live, completed and unknown ids, incoming request with a live id, cancel, cancel_retransmissions, configure (1ms,0,0)/(7ms,3,0), set remote credentials}, <= 3 live, <= 4 sends, UDP and TCP; from every unique state a drain to completion; distinct_nontrivial = unique states", None)
+    run_slices(ctx, runs, &req, "all call histories up to the depth over {send (2 shapes, duplicate ids), send indication, poll at now/wake/wake+700ms x all map-iteration orders, responses (unsigned, SHA-1 under R1/R2) for live, completed and unknown ids, incoming request with a live id, cancel, cancel_retransmissions, configure (1ms,0,0)/(7ms,3,0), set remote credentials}, <= 3 live, <= 4 sends, UDP and TCP; from every unique state a drain to completion; plus single-transaction schedules to completion with one of {response, error response from another source, response for an unknown id, duplicate send, incoming request / indication with the same id, indication sent, cancel, cancel_retransmissions} at every step index x 2 poll patterns x 6 base configurations (all in thorough); distinct_nontrivial = unique states", Some(crate::agent::schedule::completion_sweep(ctx)))
 }
 
 pub fn c06(ctx: &Ctx) -> Report {
@@ -154,7 +154,7 @@ pub fn c07(ctx: &Ctx) -> Report {
         runs.push(SliceRun { slice: s, depth: ctx.tier.pick(9, 12) });
     }
     let req = ["response delivered", "forged or unauthenticated response dropped, state unchanged (self-loop)", "genuine SHA-1 response delivered to an authenticated request", "genuine SHA-256 response delivered to an authenticated request", "genuine SHA-1+SHA-256 response delivered to an authenticated request", "timed out"];
-    run_slices(ctx, runs, &req, "all histories up to the depth over {send with no / SHA-1 / SHA-256 / both integrity, responses unsigned / SHA-1 under R1, R2, local key / SHA-256 under R1, R2 / both / one HMAC bit flipped x success, error x two sources, set remote credentials R1/R2/long-term at any point (unset, set, changed mid-transaction), set local credentials, poll now/wake/wake+1, configure (7ms,3,0)}, <= 2 live; delivery judged by the reference HMAC; drain from every state", None)
+    run_slices(ctx, runs, &req, "all histories up to the depth over {send with no / SHA-1 / SHA-256 / both integrity, responses unsigned / SHA-1 under R1, R2, local key / SHA-256 under R1, R2 / both / one HMAC bit flipped x success, error x two sources, set remote credentials R1/R2/long-term at any point (unset, set, changed mid-transaction), set local credentials, poll now/wake/wake+1, configure (7ms,3,0)}, <= 2 live; delivery judged by the reference HMAC; drain from every state; plus single-transaction schedules of an authenticated request to completion with a forged / unsigned / corrupted / local-key / genuine response at every step index x 2 poll patterns x 6 base configurations (all in thorough)", Some(crate::agent::schedule::forgery_sweep(ctx)))
 }
 
 pub fn c15(ctx: &Ctx) -> Report {
